@@ -14,6 +14,51 @@ MODES = {'req': ('emit_req_v', 'ReqKernels.v', 'BridgeReq.v'), 'scan': ('emit_sc
          'helpers': ('emit_helpers_v', 'HelperKernels.v', 'BridgeHelpers.v'), 'gnss': ('emit_gnss_v', 'GnssKernels.v', 'BridgeGnss.v'), 'lever': ('emit_lever_v', 'LeverKernels.v', 'BridgeLever.v')}
 
 
+def one_old(patch):
+    """the older translator (translate.py): checksum, both parsers, to_bytes, static cfg-key helpers"""
+    wt = tempfile.mkdtemp(prefix='ubx-tb-', dir='/tmp'); os.rmdir(wt)
+    gen = tempfile.mkdtemp(prefix='ubx-tbg-', dir='/tmp')
+    try:
+        rc, o = sh(f'git -C /repo worktree add -q --detach {wt} HEAD')
+        if rc: return 'worktree-error ' + o[-100:]
+        rc, o = sh(f'git apply {patch}', cwd=wt)
+        if rc: return 'patch-does-not-apply'
+        env = dict(os.environ, PYTHONPATH=f'{wt}:{VERIF}/py', PYTHONDONTWRITEBYTECODE='1')
+        res = []
+        for parts, bridges in ((('ck', 'ubx', 'nmea'), ('BridgeCk.v', 'BridgeUbx.v', 'BridgeNmea.v')), (('ck', 'frame'), ('BridgeCk.v', 'BridgeFrame.v')),
+                               (('cfgkeys',), ('BridgeCfgKeys.v',))):
+            for f in os.listdir(gen):
+                os.remove(os.path.join(gen, f))
+            code = ("from vlib import translate\n"
+                    "try:\n translate.emit_kernels_v(" + repr(os.path.join(gen, 'Kernels.v')) + ", " + repr(parts) + ")\n print('OK')\n"
+                    "except translate.TranslateError as e:\n print('REJECT', e)\n"
+                    "except Exception as e:\n print('REJECT', repr(e))\n")
+            with open(os.path.join(gen, 'run.py'), 'w') as fh:
+                fh.write(code)
+            rc, o = sh('/venv/bin/python run.py', cwd=gen, env=env)
+            last = o.strip().splitlines()[-1] if o.strip() else ''
+            tag = '+'.join(parts)
+            if not last.startswith('OK'):
+                res.append(f'{tag}: unavailable ({last[:80]})')
+                continue
+            rc, o = sh(f'prlimit --as=12000000000 timeout 300 coqc -w -notation-overridden -Q {VERIF}/coq Ubx -Q . UbxGen Kernels.v', cwd=gen)
+            if rc:
+                res.append(f'{tag}: unavailable (generated file does not type-check)')
+                continue
+            verdict = 'bridge-holds'
+            for b in bridges:
+                shutil.copy(f'{VERIF}/coq/bridge/{b}', gen)
+                rc, o = sh(f'prlimit --as=12000000000 timeout 600 coqc -w -notation-overridden -Q {VERIF}/coq Ubx -Q . UbxGen {b}', cwd=gen)
+                if rc:
+                    verdict = f'bridge-FAILS ({b})'
+                    break
+            res.append(f'{tag}: {verdict}')
+        return '; '.join(res)
+    finally:
+        sh(f'git -C /repo worktree remove --force {wt}')
+        shutil.rmtree(gen, ignore_errors=True)
+
+
 def one(patch, mode='req'):
     emit, kern, bridge = MODES[mode]
     wt = tempfile.mkdtemp(prefix='ubx-tb-', dir='/tmp'); os.rmdir(wt)
@@ -59,4 +104,4 @@ def one(patch, mode='req'):
 if __name__ == '__main__':
     mode = 'scan' if '--scan' in sys.argv else 'cfg' if '--cfg' in sys.argv else 'items' if '--items' in sys.argv else 'gpsd' if '--gpsd' in sys.argv else 'valget' if '--valget' in sys.argv else 'helpers' if '--helpers' in sys.argv else 'gnss' if '--gnss' in sys.argv else 'lever' if '--lever' in sys.argv else 'req'
     for p in [a for a in sys.argv[1:] if not a.startswith('--')]:
-        print(p, '->', one(os.path.abspath(p), mode), flush=True)
+        print(p, '->', one_old(os.path.abspath(p)) if '--old' in sys.argv else one(os.path.abspath(p), mode), flush=True)
